@@ -158,7 +158,7 @@ def gen_script(rng, lay):
         else:
             ops.append(("restart",))
         if rng.random() < 0.15 and ops[-1][0] in ("store", "restore"):
-            ops.append(("partial", ops[-1][0], rng.choice(lay.subs()), rng.choice(["empty", "short", "split"])))
+            ops.append(("partial", ops[-1][0], rng.choice(lay.subs()), rng.choice(["empty", "short"])))
     return ops
 
 
@@ -250,7 +250,7 @@ def execute(res, exe, lay, ops, fault, tag, sample=False):
                 if op[0] == "store" and verdict == "ok":
                     stores += 1
             elif op[0] == "partial":
-                # segmented downloads that deliver less than the four signature bytes (nothing, two bytes, or two + two): they are no
+                # segmented downloads that deliver less than the four signature bytes (nothing, or two bytes): they are no
                 # store / restore request whatever the transfer buffer still holds from an earlier one - no NVM access, no default callback
                 _, which, sub, variant = op
                 idx = 0x1010 if which == "store" else 0x1011
